@@ -3,71 +3,6 @@
 // neighbors*(a) yield exactly the far endpoints of the matching incidence lists of a, in list order
 // ======================================================================================
 
-pub open spec fn has_chain<E, Ix: IndexType>(es: Seq<Edge<E, Ix>>, h: EdgeIndex<Ix>, k: int) -> bool { exists|s: Seq<int>| chain(es, h, k, s) }
-/// targets of the edges s
-pub open spec fn nb_out<E, Ix: IndexType>(es: Seq<Edge<E, Ix>>, s: Seq<int>) -> Seq<NodeIndex<Ix>> { Seq::new(s.len(), |i: int| es[s[i]].node[1]) }
-/// sources of the edges s, without those equal to `skip` (self-loops already seen in the outgoing list)
-pub open spec fn nb_in<E, Ix: IndexType>(es: Seq<Edge<E, Ix>>, s: Seq<int>, skip: int) -> Seq<NodeIndex<Ix>>
-    decreases s.len()
-{
-    if s.len() == 0 { Seq::empty() }
-    else { (if es[s[0]].node[0].0.ix() != skip { seq![es[s[0]].node[0]] } else { Seq::empty() }) + nb_in(es, s.drop_first(), skip) }
-}
-pub proof fn lemma_nb_in_contains<E, Ix: IndexType>(es: Seq<Edge<E, Ix>>, s: Seq<int>, skip: int, x: NodeIndex<Ix>)
-    ensures nb_in(es, s, skip).contains(x) <==> (exists|j: int| 0 <= j < s.len() && es[#[trigger] s[j]].node[0] == x && x.0.ix() != skip)
-    decreases s.len()
-{
-    if s.len() > 0 {
-        let t = s.drop_first();
-        lemma_nb_in_contains(es, t, skip, x);
-        let hd: Seq<NodeIndex<Ix>> = if es[s[0]].node[0].0.ix() != skip { seq![es[s[0]].node[0]] } else { Seq::empty() };
-        let rest = nb_in(es, t, skip);
-        let full = hd + rest;
-        if full.contains(x) {
-            let q = choose|q: int| 0 <= q < full.len() && full[q] == x;
-            if q < hd.len() { assert(es[s[0]].node[0] == x); }
-            else { assert(rest[q - hd.len()] == x); assert(rest.contains(x));
-                let j = choose|j: int| 0 <= j < t.len() && es[#[trigger] t[j]].node[0] == x && x.0.ix() != skip; assert(s[j + 1] == t[j]); }
-        }
-        if exists|j: int| 0 <= j < s.len() && es[#[trigger] s[j]].node[0] == x && x.0.ix() != skip {
-            let j = choose|j: int| 0 <= j < s.len() && es[#[trigger] s[j]].node[0] == x && x.0.ix() != skip;
-            if j == 0 { assert(full[0] == x); }
-            else { assert(t[j - 1] == s[j]); assert(rest.contains(x)); let q = choose|q: int| 0 <= q < rest.len() && rest[q] == x; assert(full[hd.len() + q] == x); }
-        }
-    }
-}
-/// one step along a chain
-pub proof fn lemma_chain_step<E, Ix: IndexType>(es: Seq<Edge<E, Ix>>, h: EdgeIndex<Ix>, k: int)
-    ensures
-        h.0.ix() >= es.len() ==> has_chain(es, h, k) && chain_of(es, h, k).len() == 0,
-        h.0.ix() < es.len() ==> (has_chain(es, h, k) <==> has_chain(es, es[h.0.ix() as int].next[k], k)),
-        h.0.ix() < es.len() && has_chain(es, h, k) ==> chain_of(es, h, k) == seq![h.0.ix() as int] + chain_of(es, es[h.0.ix() as int].next[k], k),
-{
-    if h.0.ix() >= es.len() {
-        let e = Seq::<int>::empty();
-        assert(chain(es, h, k, e));
-        lemma_chain_of(es, h, k, e);
-    } else {
-        let i = h.0.ix() as int; let nx = es[i].next[k];
-        if has_chain(es, nx, k) {
-            let t = choose|t: Seq<int>| chain(es, nx, k, t);
-            let s = seq![i] + t;
-            assert(s.drop_first() =~= t);
-            assert(chain(es, h, k, s));
-            lemma_chain_of(es, h, k, s);
-            lemma_chain_of(es, nx, k, t);
-        }
-        if has_chain(es, h, k) {
-            let s = choose|s: Seq<int>| chain(es, h, k, s);
-            assert(s.len() > 0);
-            assert(chain(es, nx, k, s.drop_first()));
-            lemma_chain_of(es, h, k, s);
-            lemma_chain_of(es, nx, k, s.drop_first());
-            assert(s =~= seq![i] + s.drop_first());
-        }
-    }
-}
-
 //@ item src/graph_impl/mod.rs | - | struct Neighbors
 /// Iterator over the neighbors of a node.
 ///
@@ -265,21 +200,3 @@ where
 //@ end
 }
 
-/// with a skip value that no source equals, nb_in keeps every source
-pub proof fn lemma_nb_in_all<E, Ix: IndexType>(es: Seq<Edge<E, Ix>>, s: Seq<int>, skip: int)
-    requires forall|j: int| 0 <= j < s.len() ==> 0 <= #[trigger] s[j] < es.len() && es[s[j]].node[0].0.ix() != skip
-    ensures nb_in(es, s, skip) == Seq::new(s.len(), |j: int| es[s[j]].node[0])
-    decreases s.len()
-{
-    if s.len() > 0 {
-        let t = s.drop_first();
-        assert forall|j: int| 0 <= j < t.len() implies 0 <= #[trigger] t[j] < es.len() && es[t[j]].node[0].0.ix() != skip by { assert(t[j] == s[j + 1]); }
-        lemma_nb_in_all(es, t, skip);
-        assert(nb_in(es, s, skip) =~= Seq::new(s.len(), |j: int| es[s[j]].node[0])) by {
-            let l = seq![es[s[0]].node[0]] + Seq::new(t.len(), |j: int| es[t[j]].node[0]);
-            assert forall|j: int| 0 <= j < s.len() implies l[j] == es[s[j]].node[0] by { if j > 0 { assert(t[j - 1] == s[j]); } }
-        }
-    } else {
-        assert(nb_in(es, s, skip) =~= Seq::new(s.len(), |j: int| es[s[j]].node[0]));
-    }
-}
